@@ -14,7 +14,15 @@ def check(ctx):
     rep.floor("reader character classes", n4, 4)
     n5 = escapes.check_grid_layout(ctx, rep)
     rep.floor("grid header layout obligations", n5, 5)
+    from rules import tz as _tz
+    _tz.check_utc_guard(ctx, rep)
+    _tz.check_offset_fields(ctx, rep)
     escapes.check_column_layout(ctx, rep)
+    nw = escapes.check_write_methods(ctx, rep)
+    rep.floor("io::Write calls in the Zinc writer", nw, 45)
+    escapes.check_element_encoding(ctx, rep)
+    nc = escapes.check_cell_presence_only(ctx, rep)
+    rep.floor("grid cell write sites", nc, 1)
     n9 = escapes.check_separators(ctx, rep)
     rep.floor("separator writes inside enumerate loops", n9, 4)
     n10 = escapes.check_nesting_flag(ctx, rep)
